@@ -235,4 +235,17 @@ mod kani_harness {
 	inst!(c20_survive_2_3, step_survive, 2, 3, 6);
 	inst!(c20_survive_3_3, step_survive, 3, 3, 6);
 	inst!(c20_survive_4_4, step_survive, 4, 4, 7);
+	inst!(c20_add_5_5, step_add, 5, 5, 8);
+	inst!(c20_get_5_5, step_get, 5, 5, 8);
+	inst!(c20_gos_5_5, step_get_or_set, 5, 5, 8);
+	inst!(c20_survive_5_5, step_survive, 5, 5, 8);
+	inst!(c20_add_6_6, step_add, 6, 6, 9);
+	inst!(c20_survive_6_6, step_survive, 6, 6, 9);
+	inst!(c20_get_6_6, step_get, 6, 6, 9);
+	inst!(c20_gos_6_6, step_get_or_set, 6, 6, 9);
+	inst!(c20_add_7_8, step_add, 7, 8, 11);
+	inst!(c20_add_8_8, step_add, 8, 8, 11);
+	inst!(c20_get_8_8, step_get, 8, 8, 11);
+	inst!(c20_gos_8_8, step_get_or_set, 8, 8, 11);
+	inst!(c20_survive_8_8, step_survive, 8, 8, 11);
 }
